@@ -7,7 +7,7 @@ HERE = os.path.dirname(os.path.dirname(os.path.abspath(__file__)))
 
 CLAIMED = {
     "C01": dict(
-        technique="abstract interpretation of grammar actions against the ASDL schema + syntactic IR rules (operator table, operand order, associativity, precedence ladder, provenance of argument layout)",
+        technique="abstract interpretation of grammar actions against the ASDL schema + syntactic IR rules (operator table, operand order, associativity, precedence ladder, provenance of argument layout) + finite-domain evaluation from source of the runtime combinators, memo wrappers, token matchers and literal evaluation",
         category="other",
         text="Decides the structural clauses A1-A10 (field names/kinds, no lost capture, operator class vs spelling, operand order, span provenance, associativity, precedence ladder, argument layout, look-aheads covering the FIRST set of what they guard, one column unit, backtracking discipline of the 14 hand-written combinators) and, as necessary conditions of tree equality, the rule sets of C04 (node well-formedness), C08 (token text/positions) and C09 (lexical agreement with CPython). Equality with CPython over all programs is NOT decided; each clause is a necessary condition whose breach changes a field or span on every input reaching the alternative.",
         note="trusts ast.X.__doc__ signatures and ast._Unparser tables of the running interpreter, the decompiler (pyir), the abstract semantics of the supported Python subset (absint) and two small language tables (source order exceptions, precedence ladder)"),
@@ -20,7 +20,7 @@ CLAIMED = {
         technique="static translation validation: grammar IR vs decompiled generated module",
         category="translation_validation",
         text="IR(grammar) through a reference re-statement of the generation step equals IR(decompiled shipped module), for both shipped pairs, per rule and alternative; decided from sources without running the generator.",
-        note="trusts the independent grammar reader, the decompiler and the reference translation in xpverif/; a generator edit that changes future output while shipped files stay untouched is visible only through the eleven generator facts GF1-GF11 (hash order, keyword regex, truthiness commas, sorted tables, decorator emission, helper identity, class-level state, last definition wins, returns through clean-up, self-edges in the cycle search, NAME-leaf translation) - any other generator-only edit is NOT decided"),
+        note="trusts the independent grammar reader, the decompiler and the reference translation in xpverif/; a generator edit that changes future output while shipped files stay untouched is visible only through the generator facts GF1-GF14 (hash order, keyword regex, truthiness commas, sorted tables, decorator emission, helper identity, class-level state, last definition wins, returns through clean-up, self-edges in the cycle search, NAME-leaf translation, dedupe, cut variable, items through the visitor) and the C17 clauses - any other generator-only edit is NOT decided; helper methods are compared after inlining, so the counter-based numbering of _tmp_N names is NOT compared (it drifted once through hand edits and was repaired in /repo 788ab9a)"),
 }
 
 CLAIMED.update({
@@ -43,7 +43,7 @@ CLAIMED.update({
         text="Decides that every SyntaxError/IndentationError reachable from the parser is built by the two builders with CPython's argument layout (both 0->1-based column conversions), text from the reported token or line range, coherent start/end in every raise_* helper, earlier item first in range errors, and that errors born in ast.literal_eval are intercepted. Deviations on today's tree (version gate, macro bracket mismatch, tokenizer IndentationError, literal_eval) are listed known findings.",
         note="token coordinates themselves are assumed right (C08); totality of the line lookup is C03/E3"),
     "C12": dict(
-        technique="sibling-implementation agreement of the two entry points + effect rules on open()/StringIO arguments",
+        technique="sibling-implementation agreement of the two entry points + effect rules on every text decoder / StringIO argument, source-verbatim dataflow rule, finite-domain evaluation of peek/getnext from source on raw-token streams (string mode remembers every physical line, file mode none)",
         category="other",
         text="Decides that parse_file and parse_string build the same pipeline and differ only in readline source, path= and filename=; that every open() names UTF-8; that both paths use the same newline translation; that the two sources of SyntaxError.text are selected by the path only and number lines alike.",
         note="PEP 263 coding cookies out of scope; relies on C03/C11 rules for the line lookup itself"),
@@ -87,7 +87,7 @@ CLAIMED.update({
         text="Decides: the four bracket forms map to the four runtime methods, @(..) and @$(..) build the starred helper calls, adjacency compares end with start pairs, pieces are walked in order and a word is emitted exactly at a non-adjacent boundary, no helper shifts a piece's own start column, WS tokens are dropped outside raw capture, a word is Constant(tok.string) over the token's span and gluing is previous+current (incl. the span after gluing), every bracket form stays reachable through the look-ahead in front of it, and all column producers use one unit. Word splitting over all spellings (how every spelling tokenizes) is NOT decided.",
         note="token coordinates assumed right (C08)"),
     "C07": dict(
-        technique="must-pass-through on the scanner's CFG, delimiter-table agreement, flag typestate (setter/cut/consumer/reset on all paths), symbolic evaluation of the macro builders",
+        technique="must-pass-through on the scanner's CFG, delimiter-table agreement, flag typestate (setter/cut/consumer/reset on all paths), symbolic evaluation of the macro builders, and finite-domain evaluation of the call-macro capture routine from source on all raw-token streams up to a length bound against a reference written from the property (also the arbiter when a shape rule does not recognise a refactored loop)",
         category="other",
         text="Decides: every non-delimiter token is appended before the next is fetched, arguments end only at top-level , or ), spans run first-start..last-end, block capture skips only structural tokens and keeps whole lines, bracket tables agree with the tokenizer, each macro flag has one setter committed by a cut and a consumer that resets it on all paths, builders pass raw text in order, INDENT/DEDENT swallowed in balance, and string tokens carry their full text and lines (C08 L1/L2). Fidelity over all argument texts is NOT decided.",
         note="token text equals source text (C08)"),
